@@ -169,7 +169,7 @@ def cases(ctx):
                 if ctx.mine(i):
                     yield "addr", {"n": n, "addr": a, "data": "%X" % (rng.getrandbits(n - 24) if rep else 0), "lower": rep == 1}
                 i += 1
-    for k in range(ctx.share(100000 if quick else 1000000)):
+    for k in range(ctx.share(100000 if quick else 4000000)):
         n = rng.choice((56, 112))
         yield "addr", {"n": n, "addr": rng.getrandbits(24), "data": "%X" % rng.getrandbits(n - 24), "lower": k % 4 == 0}
     # exhaustive field product, grouped per (UF, RR)
